@@ -254,16 +254,17 @@ def _check(assertions, timeout_ms, want_model=False, probes=None):
 
 
 def _job(idx):
+    """prove (short budget) -> [cvc5] -> refute (ground) -> prove again (confirm budget) before a refutation is believed"""
     ob = _OBS[idx]
     budget_ms, also_cvc5, refute = _CFG["budget_ms"], _CFG["also_cvc5"], _CFG["refute"]
+    first_ms = min(2000, budget_ms)
     log = []
     ax = library_axioms(ob.hyps + [ob.goal])
     full = ax + ob.hyps + [z3.Not(ob.goal)]
-    r = _check(full, budget_ms)
-    log.append(("z3-prove", r["result"], round(r["time"], 3)))
     out = {"idx": idx, "log": log}
-    if r["result"] == "unsat":
-        out["verdict"], out["backend"] = "proved", "z3"
+
+    def proved(backend):
+        out["verdict"], out["backend"] = "proved", backend
         if also_cvc5:
             c = _solve_cvc5(to_smt2(full), budget_ms)
             log.append(("cvc5-prove", c["result"], round(c["time"], 3)))
@@ -271,12 +272,11 @@ def _job(idx):
             if c["result"] == "sat":
                 out["verdict"] = "solver-disagreement"
         return out
-    if r["result"] in ("unknown", "error"):
-        c = _solve_cvc5(to_smt2(full), budget_ms)
-        log.append(("cvc5-prove", c["result"], round(c["time"], 3)))
-        if c["result"] == "unsat":
-            out["verdict"], out["backend"] = "proved", "cvc5"
-            return out
+
+    r = _check(full, first_ms)
+    log.append(("z3-prove", r["result"], round(r["time"], 3)))
+    if r["result"] == "unsat":
+        return proved("z3")
     if not refute:
         out["verdict"], out["reason"] = "unknown", r.get("reason")
         return out
@@ -284,11 +284,21 @@ def _job(idx):
     f = _check(g, budget_ms, True, getattr(ob, "probes", None))
     log.append(("z3-refute", f["result"], round(f["time"], 3)))
     if f["result"] == "unsat":
-        out["verdict"], out["backend"] = "proved", "z3-ground"
-    elif f["result"] == "sat":
+        return proved("z3-ground")
+    # a candidate refutation (or nothing): give prove mode its full budget, then cvc5, before believing it
+    r2 = _check(full, budget_ms if f["result"] != "sat" else max(first_ms, budget_ms // 3))
+    log.append(("z3-prove-2", r2["result"], round(r2["time"], 3)))
+    if r2["result"] == "unsat":
+        return proved("z3")
+    c = _solve_cvc5(to_smt2(full), max(first_ms, budget_ms // 3))
+    log.append(("cvc5-prove", c["result"], round(c["time"], 3)))
+    if c["result"] == "unsat":
+        out["verdict"], out["backend"] = "proved", "cvc5"
+        return out
+    if f["result"] == "sat":
         out["verdict"], out["model"], out["probes"] = "refuted", f.get("model", {}), f.get("probes", {})
     else:
-        out["verdict"], out["reason"] = "unknown", f.get("reason") or r.get("reason")
+        out["verdict"], out["reason"] = "unknown", f.get("reason") or r2.get("reason")
     return out
 
 
